@@ -697,6 +697,44 @@ func (env *Env) evalCall(n ECall) Val {
 		return term(a, gt)
 	case "callresult0", "callresult1", "callresult2":
 		limitf("callresultN is an identifier, not a function")
+	case "strCount":
+		// number of non-overlapping occurrences of a one-character separator
+		s0, sub := env.eval(n.Args[0]), env.eval(n.Args[1])
+		return term(e.fromMathInt(fmt.Sprintf("(- (str.len %s) (str.len (str.replace_all %s %s \"\")))", s0.T, s0.T, sub.T)), tInt)
+	case "lower", "indexOf", "substr", "contains", "hasPrefix", "hasSuffix", "concat", "upper":
+		// SMT-LIB string theory (str.to_lower/str.to_upper are decided by cvc5 only)
+		var as []string
+		for _, a := range n.Args {
+			v := env.eval(a)
+			if v.K == kConst {
+				v = e.coerce(v, tInt)
+				as = append(as, e.toMathInt(v.T))
+				continue
+			}
+			if isInteger(v.Typ) {
+				as = append(as, e.toMathInt(v.T))
+			} else {
+				as = append(as, v.T)
+			}
+		}
+		switch id.Name {
+		case "lower":
+			return term(fmt.Sprintf("(str.to_lower %s)", as[0]), tString)
+		case "upper":
+			return term(fmt.Sprintf("(str.to_upper %s)", as[0]), tString)
+		case "indexOf":
+			return term(e.fromMathInt(fmt.Sprintf("(str.indexof %s %s 0)", as[0], as[1])), tInt)
+		case "substr":
+			return term(fmt.Sprintf("(str.substr %s %s %s)", as[0], as[1], as[2]), tString)
+		case "contains":
+			return term(fmt.Sprintf("(str.contains %s %s)", as[0], as[1]), tBool)
+		case "hasPrefix":
+			return term(fmt.Sprintf("(str.prefixof %s %s)", as[1], as[0]), tBool)
+		case "hasSuffix":
+			return term(fmt.Sprintf("(str.suffixof %s %s)", as[1], as[0]), tBool)
+		case "concat":
+			return term(fmt.Sprintf("(str.++ %s)", strings.Join(as, " ")), tString)
+		}
 	case "zero":
 		t := e.P.resolveType(n.Args[0].String(), env.pkg, env.fnForTypes())
 		return term(e.zero(t), t)
